@@ -126,7 +126,12 @@ class ModelGen(object):
         pure = self.elems[0]
         expr = oalsem.bin_('+', oalsem.attr(oalsem.self_(), 'N'),
                            call_node(pure, {'n': oalsem.bin_('*', oalsem.attr(oalsem.self_(), 'N'), oalsem.lit(2))}))
-        self.der_body = [oalsem.assign(oalsem.attr(oalsem.self_(), 'der'), expr)]
+        # ... and reads a plain attribute of another class that happens to carry the same name
+        other = oalsem.attr(oalsem.var('o2'), 'der')
+        self.der_body = [oalsem.select_from('any', 'o2', 'K2'),
+                         oalsem.if_(oalsem.un('not_empty', oalsem.var('o2')),
+                                    [oalsem.assign(oalsem.attr(oalsem.self_(), 'der'), oalsem.bin_('+', expr, other))],
+                                    [], [oalsem.assign(oalsem.attr(oalsem.self_(), 'der'), expr)])]
         self.der_text = om.render(om.body(self.der_body))
 
     def is_pure(self, e):
@@ -305,7 +310,8 @@ class ModelGen(object):
                                         instance_based=(e.kind == 'iop')))
         attrs = [bp.Attr('Id', 'unique_id'), bp.Attr('N', 'integer'), bp.Attr('S', 'string'),
                  bp.Attr('F', 'boolean'), bp.Attr('der', 'integer', derived=self.der_text)]
-        d.classes = [bp.Cls('Klass', 'K', 1, attrs, [['Id']], ops)]
+        d.classes = [bp.Cls('Klass', 'K', 1, attrs, [['Id']], ops),
+                     bp.Cls('Other', 'K2', 2, [bp.Attr('Id', 'unique_id'), bp.Attr('der', 'integer')], [['Id']])]
         for e in self.elems:
             if e.kind == 'f':
                 d.functions.append((bp.Callable_(e.name, TYNAME[e.ret], [(pn, TYNAME[pt]) for pn, pt in e.params],
@@ -377,9 +383,13 @@ class Ref15(oalsem.Ref):
     def ev(self, e):
         if e[0] == 'enum':
             return e[1]
-        if e[0] == 'attr' and e[2] == 'der' and self.derived_attr is None:
+        if e[0] == 'attr' and e[2] == 'der':
             h = self.live(self.ev(e[1]))
-            return self.owner.derived(h)
+            if self.shadow.kind[h] == 'K':
+                if self.derived_attr is None:
+                    return self.owner.derived(h)
+                raise oalsem.RefError('derived attribute read inside its own body')
+            return self.shadow.rows[h]['der']
         return oalsem.Ref.ev(self, e)
 
     def ex(self, s):
@@ -399,7 +409,8 @@ def run_case(ctx, rng):
     loader = ooaofooa.ModelLoader(load_globals=True)
     loader.input(text)
     comp = loader.build_component()
-    sch = Schema([('K', [('Id', 'UNIQUE_ID'), ('N', 'INTEGER'), ('S', 'STRING'), ('F', 'BOOLEAN')])], [])
+    sch = Schema([('K', [('Id', 'UNIQUE_ID'), ('N', 'INTEGER'), ('S', 'STRING'), ('F', 'BOOLEAN')]),
+                  ('K2', [('Id', 'UNIQUE_ID'), ('der', 'INTEGER')])], [])
     bound = Bound(sch, comp)
     shadow = bound.shadow
     ids = [0]
@@ -409,6 +420,9 @@ def run_case(ctx, rng):
     comp.id_generator = xtuml.IntegerGenerator()
     for i in range(rng.randint(0, 3)):
         bound.new('K', N=rng.randint(0, 4), S=rng.choice(('', 'p')), F=rng.random() < 0.5)
+        ids[0] += 1
+    for i in range(rng.randint(0, 2)):
+        bound.new('K2', der=rng.randint(1, 9))
         ids[0] += 1
     # constants and enumerators read from Python
     ctx.hit('Call.enumerator')
